@@ -633,7 +633,7 @@ func main() {
 		}
 		return 0, false
 	}
-	histChecked, histMismatch := 0, 0
+	histChecked, histMismatch, histUnstable := 0, 0, 0
 	var histViol []histSample
 	{
 		res := make([]uint64, len(hist))
@@ -666,7 +666,7 @@ func main() {
 					}
 				} else {
 					fmt.Printf("fresh-versus-warm: digests of evaluation %d (worker %d, lane %q) differed once but not reproducibly: harness trouble\n", h.idx, h.w, h.lane.Variant)
-					detMismatch++
+					histUnstable++
 				}
 			}
 		}
@@ -680,7 +680,7 @@ func main() {
 	replayDir := filepath.Join(outDir, "replays", id)
 	violations := 0
 	knownHits := map[int]bool{}
-	inconclusive := 0
+	inconclusive := histUnstable
 	seen := map[string]bool{}
 	report := func(rf *replayHead, path string) {
 		for ki, k := range known {
@@ -882,7 +882,7 @@ func main() {
 			"unsupported_constructs": sites.Unsupported,
 			"go_statements":          map[string]int{"rewritten": sites.GoStmts, "late_argument_evaluation": sites.GoApprox},
 			"determinism_selftest":   map[string]any{"processes": detRuns, "evaluations_each": detEvals, "gomaxprocs": []int{1, 4, 16}, "mismatches": detMismatch},
-			"fresh_vs_warm":          map[string]any{"late_evaluations_reexecuted_in_fresh_processes": histChecked, "differing": histMismatch},
+			"fresh_vs_warm":          map[string]any{"late_evaluations_reexecuted_in_fresh_processes": histChecked, "differing": histMismatch, "unstable": histUnstable},
 			"race_lane":              map[string]any{"evaluations": raceEvals, "runs": raceRuns, "race_violation_classes": raceViol, "reports_not_reproduced_in_fresh_processes": raceUnreproduced, "gomaxprocs": 4},
 			"components": map[string]any{
 				"real": []string{"actionlint (every non-test source of the current /repo tree, import clauses and map ranges rewritten by simgen)", "yaml.v3", "doublestar", "robfig/cron", "go-shellwords", "fatih/color", "regexp", "text/template", "encoding/json"},
